@@ -129,4 +129,6 @@ def draw_n(rng, tier):
         return rng.randint(2, 8)
     if r < 0.9 or tier == 'quick' and r < 0.97:
         return rng.randint(9, 40)
-    return rng.randint(41, 400 if tier == 'thorough' else 120)
+    if r < 0.985:
+        return rng.randint(41, 120)
+    return rng.randint(121, 400 if tier == 'thorough' else 120)
